@@ -895,6 +895,11 @@ class RedlineEngine:
         if not self.comments_manager.comments_part:
             return False
 
+        existing_ids = {c.get(qn("w:id")) for c in self.comments_manager.comments_part.element.findall(qn("w:comment"))}
+        if target_id not in existing_ids:
+            logger.warning("Skipping reply: parent comment not found", parent_id=target_id)
+            return False
+
         new_comment_id = self.comments_manager.add_comment(self.author, text, parent_id=target_id)
 
         self._anchor_reply_comment(target_id, new_comment_id)
